@@ -42,7 +42,8 @@ CLAIMED["C11"] = ("DESIGN.md §4 C11",
     "Row/column arguments are unbounded symbolic ints: z3 shows Table.cell, write, set_cell_style (through "
     "_validate_cell_coords) and iter_rows/iter_cols of the real code address exactly the stated cell/rectangle, agree with "
     "the A1 form, raise IndexError outside, and grow the table to exactly the needed size (small-scope shapes); symbolic A1 "
-    "text of 1-3 letters and 1..8 digits with optional '$' names the position its letters and digits say and is refused at/after the limits.",
+    "text of 1-3 letters and 1..8 digits with optional '$' names the position its letters and digits say and is refused at/after the limits; "
+    "a reference used again after the table shrank grows it again.",
     "trusted: pysym; Table built directly over real cells with a stub model; outside: growth > 3, shapes beyond 3x2, "
     "set_cell_formatting/set_cell_border beyond the shared coordinate check, lower-case A1 spellings")
 
@@ -60,7 +61,8 @@ CLAIMED["C12"] = ("DESIGN.md §4 C12",
     "All rectangles in tables up to 3x3 (and disjoint pairs given as a list): z3 shows anchor, placeholders, untouched cells "
     "and merge_ranges of the real merge_cells/_set_merge are exactly the rectangle; the real merge-map writer/reader pair is "
     "checked as a codec over symbolic origins within the table limits; a merge recorded by a merge-owner dependency and a merge "
-    "saved to the region map are both seen by a fresh reader; one insertion step after a merge. Two known findings.",
+    "saved to the region map are both seen by a fresh reader; merge_ranges read between two merges lists exactly the rectangles so far; "
+    "one insertion step after a merge. Two known findings.",
     "trusted: pysym; record stubs for protobuf CellID/TableSize (uint32 range enforced); outside: reload through real archives")
 
 CLAIMED["C06"] = ("DESIGN.md §4 C06",
@@ -157,7 +159,8 @@ CLAIMED["C05"] = ("DESIGN.md §4 C05",
     "the stream; decoding k<=3 frames of symbolic lengths returns the per-frame data in order. Segment layer: the real "
     "IWAArchiveSegment.to_buffer/from_buffer with header and message sizes symbolic in 0..2^21 (all varint widths): the "
     "length prefix decodes to the header size, recorded message lengths equal the message sizes, decoding returns the same "
-    "header, messages and remainder (protobuf's pure-Python varint helpers interpreted from their source).",
+    "header, messages and remainder (protobuf's pure-Python varint helpers interpreted from their source); in a mergeable segment every "
+    "patch message is decoded with the class of its own base message.",
     "trusted: pysym rope model; snappy contract stub (compress bound, uncompress inverse); ArchiveInfo/message records as "
     "attribute bags with opaque serialised forms; outside: protobuf/snappy bytes, fixture archives, unknown-field preservation")
 
@@ -182,7 +185,9 @@ CLAIMED["C15"] = ("DESIGN.md §4 C15 (partial)",
     "exactly it and marks exactly the style archive(s) it lives in for rewriting, a style read from a cell carries attribute by "
     "attribute what the model reports, wrongly typed attributes are refused; on save (real update_cell_styles) every styled cell "
     "is given a cell-style archive built from its own current cell-level attributes, for any two background colours in one table "
-    "and again after a change between two saves. The contents of the style archives and re-reading them are NOT claimed.",
+    "and again after a change between two saves; a style written by the real add_paragraph_style / update_paragraph_style / add_cell_style "
+    "and read by the real Style.from_storage and cell_* accessors comes back attribute by attribute (binary32-representable sizes; known "
+    "finding for the others). The protobuf bytes of the archives are NOT claimed.",
     "trusted: pysym; stroke run / layer records as attribute bags, create_stroke reduced to its contract; outside: style "
     "archives (nested protobuf), images, fonts, interior edges of merged blocks")
 
